@@ -81,7 +81,7 @@ def run(ctx):
     if ctx.tier == "thorough":
         args = ["-seed", str(ctx.seed), "-n", "1500", "-blocks", "40", "-chunk", "12"]
     else:
-        args = ["-seed", str(ctx.seed), "-n", "150", "-blocks", "30", "-chunk", "6"]
+        args = ["-seed", str(ctx.seed), "-n", "120", "-blocks", "30", "-chunk", "5"]
     rep, cases, mm, mv, st = evaluate(ctx, vh, args)
     cov = ctx.coverage
     cov.update({
